@@ -65,19 +65,24 @@ DeliverSim ==
                 ELSE IF r <= 6 /\ ready # {} THEN RandomElement(ready)
                 ELSE IF r <= 8 /\ fresh # {} THEN RandomElement(fresh)
                 ELSE RandomElement(Ids \ {0})} :
-     \E hb \in {RandomElement(1..4)} :
-        IF hb = 1 /\ ~HeadersFirst THEN DeliverHeader(b) ELSE DeliverBlock(b)
+     \E hb \in {RandomElement(1..8)} :
+        IF hb <= 2 /\ ~HeadersFirst THEN DeliverHeader(b)
+        ELSE IF hb = 3 /\ ~HeadersFirst /\ Height(b) >= 2
+             THEN (\E k \in {RandomElement(2..(IF Height(b) >= 3 THEN 3 ELSE 2))} : DeliverHeaders(b, k))
+        ELSE DeliverBlock(b)
 SimNext == \/ MintSim
            \/ (AllMinted /\ DeliverSim)
            \/ (\E r \in {RandomElement(1..6)} : r = 1 /\ Reopen)
-MCSimSpec == Init /\ hist = <<>> /\ [][SimNext /\ hist' = IF last'.k \in {"ProcessHeader", "ProcessBlock", "Reopen"}
-                     THEN Append(hist, [k |-> last'.k, b |-> last'.b, res |-> last'.res, proj |-> Proj(n')])
+MCSimSpec == Init /\ hist = <<>> /\ [][SimNext /\ hist' = IF last'.k \in {"ProcessHeader", "ProcessBlock", "Reopen", "SyncHeaders"}
+                     THEN Append(hist, [k |-> last'.k, b |-> last'.b, res |-> last'.res, proj |-> Proj(n'),
+                                        cnt |-> IF last'.k = "SyncHeaders" THEN last'.cnt ELSE 0])
                      ELSE hist]_mcvars
 
 MCInit == Init /\ hist = <<>>
 MCNext == /\ Next
-          /\ hist' = IF last'.k \in {"ProcessHeader", "ProcessBlock", "Reopen"}
-                     THEN Append(hist, [k |-> last'.k, b |-> last'.b, res |-> last'.res, proj |-> Proj(n')])
+          /\ hist' = IF last'.k \in {"ProcessHeader", "ProcessBlock", "Reopen", "SyncHeaders"}
+                     THEN Append(hist, [k |-> last'.k, b |-> last'.b, res |-> last'.res, proj |-> Proj(n'),
+                                        cnt |-> IF last'.k = "SyncHeaders" THEN last'.cnt ELSE 0])
                      ELSE hist
 MCSpec == MCInit /\ [][MCNext]_mcvars
 
